@@ -512,6 +512,21 @@ func (f *ndFunc) prepare() map[string]types.Type {
 			if !ndIsPathExpr(rhs) {
 				continue
 			}
+			// only views alias what they are defined from; a struct or scalar copied by value does not
+			// (a copied flag `b := x.IsNTT` is kept: it stands for the flag as long as nobody assigns it)
+			if t := o.Type(); t != nil {
+				switch u := t.Underlying().(type) {
+				case *types.Pointer, *types.Slice, *types.Map:
+				case *types.Basic:
+					if u.Kind() != types.Bool {
+						continue
+					}
+				default:
+					if !isPolyLike(t) {
+						continue
+					}
+				}
+			}
 			p, ok := f.path(rhs, 0)
 			if !ok {
 				continue
@@ -1372,6 +1387,13 @@ func (f *ndFunc) run() {
 						}
 					}
 					assignIdent(s, id)
+					// md := *x.MetaData / md := MetaData{...}: a metadata value of its own
+					if len(x.Lhs) == len(x.Rhs) && o != nil && hasIsNTT(o.Type()) {
+						if _, isPtr := o.Type().Underlying().(*types.Pointer); !isPtr || true {
+							ms := f.metaValue(x.Rhs[i], func(p string) []ndMember { return lookup(s, p) })
+							s.env[id.Name+".#"] = ndNorm(stamp(s, ms))
+						}
+					}
 					// x := y.CopyNew() / x = <path>
 					if len(x.Lhs) == len(x.Rhs) && o != nil && isPolyLike(o.Type()) {
 						r := unparen(x.Rhs[i])
@@ -1793,6 +1815,13 @@ func (f *ndFunc) metaValue(r ast.Expr, look func(string) []ndMember) []ndMember 
 		r = unparen(u.X)
 	}
 	switch x := r.(type) {
+	case *ast.Ident:
+		// a metadata value held in a local: md := *x.MetaData ; md.IsNTT = true ; *y.MetaData = md
+		if tv, ok := f.info.Types[x]; ok && hasIsNTT(tv.Type) {
+			if p, ok := f.path(x, 0); ok {
+				return look(p + ".#")
+			}
+		}
 	case *ast.CompositeLit:
 		for _, el := range x.Elts {
 			if kv, ok := el.(*ast.KeyValueExpr); ok {
